@@ -50,6 +50,17 @@ let parse_call (toks : string list) : acall * string list =
       ({ ca_fn = f; ca_args = List.map parse_aexp args }, r')
   | _ -> failwith "bad call"
 
+let rec parse_wexp (toks : string list) : awexp * string list =
+  match toks with
+  | ("+" | "-" | "*" as o) :: r ->
+      let (a, r') = parse_wexp r in
+      let (b, r'') = parse_wexp r' in
+      (WBin ((match o with "+" -> WAdd | "-" -> WSub | _ -> WMul), a, b), r'')
+  | t :: r when t.[0] = 'S' -> (WSelf (nat_of_int (int_of_string (rest t))), r)
+  | t :: r when t.[0] = 'C' -> (WCol (bytes_of_hex (rest t)), r)
+  | t :: r when t.[0] = 'L' -> (WNum (zs (rest t)), r)
+  | _ -> failwith "bad wexp"
+
 let parse_field (toks : string list) : afield =
   let (kind, r) = (match toks with
       | "single" :: r -> let (c, r') = parse_call r in (AKSingle c, r')
@@ -59,6 +70,12 @@ let parse_field (toks : string list) : afield =
       | "cols" :: pre :: ign :: n :: r ->
           let (cs, r') = take (int_of_string n) r in
           (AKCols (bytes_of_hex pre, parse_aexp ign, List.map bytes_of_hex cs), r')
+      | "expr" :: n :: r ->
+          let rec calls k r = if k = 0 then ([], r) else
+              let (c, r') = parse_call r in let (cs, r'') = calls (k - 1) r' in (c :: cs, r'') in
+          let (cs, r') = calls (int_of_string n) r in
+          let (w, r'') = parse_wexp r' in
+          (AKExpr (cs, w), r'')
       | _ -> failwith "bad field") in
   match r with
   | "P" :: n :: r1 ->
@@ -139,6 +156,64 @@ let handle (toks : string list) : string =
                  if not (List.for_all2 tok_eq stoks model) then
                    "diff query model=" ^ String.concat " " model
                  else "ok nt"
+           end
+       | _ -> "bad line")
+  | "M" :: cap :: "#" :: r ->
+      (match split_on "#" r with
+       | [ itoks; wtoks; rtoks; stoks; atoks ] ->
+           let items = List.map parse_field (split_on "&" itoks) in
+           let (wcol, wan) = (match wtoks with
+               | [ c; "-" ] -> ((if c = "-" then None else Some (bytes_of_hex c)), None)
+               | c :: t :: ft ->
+                   let tst = if t = "t" then AWTTrue else AWTGt (zs (rest t)) in
+                   ((if c = "-" then None else Some (bytes_of_hex c)), Some (parse_field ft, tst))
+               | _ -> failwith "bad where") in
+           let q = { mq_items = items; mq_wcol = wcol; mq_wan = wan; mq_cap = nat_of_int (int_of_string cap) } in
+           let rows = List.map parse_row (split_on ";" rtoks) in
+           let show_row = function
+             | Some os -> String.concat "/" (List.map show_out os)
+             | None -> "x" in
+           let row_eq a b =
+             a = b || (let xs = String.split_on_char '/' a and ys = String.split_on_char '/' b in
+                       List.length xs = List.length ys && List.for_all2 tok_eq xs ys) in
+           let model = List.map show_row (an_msync q rows) in
+           (* the model of Emit under a schedule that lets the consumer run after every second push *)
+           let sched = List.concat (List.mapi (fun i _ -> if i mod 2 = 1 then [ASPush; ASPop; ASPop] else [ASPush]) rows) in
+           let amodel = List.map show_row (an_masync q sched rows [] (an_m0 q)) in
+           let nonx l = List.filter (fun t -> t <> "x") l in
+           if List.length stoks <> List.length rows then "chk length sync outputs"
+           else if not (List.length (nonx stoks) = List.length atoks && List.for_all2 row_eq (nonx stoks) atoks)
+           then "chk sync_async async=" ^ String.concat " " atoks
+           else begin
+             let judge sql =
+               let spec' = List.map show_row (an_mspec_query sql q rows) in
+               let rec cmp i a b = match a, b with
+                 | [], [] -> None
+                 | x :: a', y :: b' ->
+                     if row_eq x y then cmp (i + 1) a' b'
+                     else Some (i, x, y)
+                 | _ -> Some (-1, "", "") in
+               cmp 0 stoks spec' in
+             let verdict =
+               if an_mwithin_cap q rows then
+                 (match judge false with
+                  | Some (i, x, y) ->
+                      if x = "x" || y = "x" then Some (Printf.sprintf "chk where_order row=%d impl=%s spec=%s" i x y)
+                      else Some (Printf.sprintf "chk seq_value row=%d impl=%s spec=%s" i x y)
+                  | None ->
+                      (* the same specification with NULL-propagating arithmetic for a sum of calls / columns *)
+                      (match judge true with
+                       | Some (i, x, y) -> Some (Printf.sprintf "chk wrapper_sum_null row=%d impl=%s spec=%s" i x y)
+                       | None -> None))
+               else None in
+             match verdict with
+             | Some v when not (String.length v > 22 && String.sub v 0 22 = "chk wrapper_sum_null r") -> v
+             | _ ->
+                 if not (List.for_all2 row_eq stoks model) then
+                   "diff mquery model=" ^ String.concat " " model
+                 else if not (List.for_all2 row_eq model amodel) then
+                   "diff masync model=" ^ String.concat " " amodel
+                 else (match verdict with Some v -> v | None -> "ok nt")
            end
        | _ -> "bad line")
   | ["J"; bx; by; eq] ->
